@@ -171,6 +171,6 @@ def check(ctx):
         check_guards(ctx, cfg)
         check_reuse(ctx, cfg)
         n = c16.check_handover(ctx, cfg)
-        ctx.floor("C16.P", "raw ownership hand-overs (%s)" % cfg, n, 3)
+        ctx.floor("C16.P", "raw ownership hand-overs (%s)" % cfg, n, 1)
         check_no_stack(ctx, cfg)
         c07.check_try(ctx, cfg, c07.K_TRYB, True)
